@@ -1,4 +1,5 @@
 import PallasVerif.Model.Cbor
+import PallasVerif.Model.CborFast
 import PallasVerif.Model.Utxo
 import PallasVerif.Model.Traverse
 /-
